@@ -83,6 +83,18 @@ class Spec:
         self.shared_members = set()
 
 
+def close(a, b):
+    """equal outcomes; numbers up to the rounding of a different (equally
+    valid) summation order"""
+    if a == b:
+        return True
+    if a and b and a[0] == 'value' and b[0] == 'value' and \
+            a[1][0] == 'num' and b[1][0] == 'num':
+        x, y = a[1][1], b[1][1]
+        return abs(x - y) <= 1e-12 * max(abs(x), abs(y))
+    return False
+
+
 def norm_formula(text):
     return text[1:] if text.startswith('=') else text
 
@@ -395,12 +407,12 @@ def run(ctx):
                     want = ('value', ref.to_norm(wb.value(key)))
                 except ref.Undecided:
                     want = None
-                if want is not None and got != want:
+                if want is not None and not close(got, want):
                     problems.append(f'evaluate({a}) [{exp["formula"]}] -> '
                                     f'{got}, reference {want[1]}')
                 if direct is not None:
                     gd = subject.outcome_of(lambda: direct.evaluate(a))
-                    if gd != got:
+                    if not close(gd, got):
                         problems.append(
                             f'evaluate({a}) -> {got} on the loaded model, '
                             f'{gd} on a model built directly from the same '
